@@ -132,6 +132,29 @@ def modrm_grid(opcodes=(b"\x8b", b"\x8a", b"\x0f\xb7", b"\x0f\x6f", b"\x0f\x28",
     return out
 
 
+def segment_grid(opcodes=(b"\x8b", b"\x88", b"\xff", b"\x0f\xb6", b"\xd9", b"\x0f\x6f")):
+    """every segment-override prefix x every memory addressing shape: all ModRM memory bytes of reg fields 0 / 6 at mod 0 / 1 / 2 and, under
+    rm = 100, every (base, index) pair at scales 1 and 4 - the default segment of an address depends on *where* ebp / esp stand in it (base vs
+    index), so an override that coincides with a default is meaningful for some shapes and superfluous for others (seed C09-r8-2); the 16-bit
+    shapes (67) come with every override as well"""
+    out = []
+    for opc in opcodes:
+        for seg in (b"\x26", b"\x2e", b"\x36", b"\x3e", b"\x64", b"\x65"):
+            for mod in (0, 1, 2):
+                for reg in ((0, 6) if opc in (b"\xff", b"\xd9") else (0,)):
+                    for rm in range(8):
+                        if rm != 4:
+                            out.append(window(seg, opc, bytes([modrm(mod, reg, rm)]) + PATTERN))
+                            out.append(window(seg + b"\x67", opc, bytes([modrm(mod, reg, rm)]) + PATTERN))
+                            continue
+                        out.append(window(seg + b"\x67", opc, bytes([modrm(mod, reg, rm)]) + PATTERN))
+                        for base in range(8):
+                            for index in range(8):
+                                for ss in (0, 2):
+                                    out.append(window(seg, opc, bytes([modrm(mod, reg, 4), (ss << 6) | (index << 3) | base]) + PATTERN))
+    return out
+
+
 def x87_cases():
     out = []
     for op in range(0xd8, 0xe0):
